@@ -12,6 +12,9 @@ FUNCTIONS = ["miros.event.SignalSource.__init__", "miros.event.SignalSource.appe
              "miros.event.SignalSource.is_inner_signal", "miros.event.SignalSource.name_for_signal", "miros.event.Event.__init__",
              "E2: miros.event.SignalSource.append, miros.event.Event.__init__ (translated from source, see e2 section of the evidence)"]
 ASSUMPTIONS = [
+  "E2: threads each perform one first use on a shared registry (SignalSource.append + lookup, Event(signal=name), Event(signal=number)); the real "
+  "SignalSource.append and Event.__init__ are translated from /repo's source on this run; the registry is a dict model (insertion order, iteration raises "
+  "RuntimeError at the next step once the size changed, as CPython does); module-level locks met while translating become RLock models",
   "a fresh SignalSource per case, installed as miros.event.signals (the global one would let cases contaminate each other)",
   "the pre-state is grown through the real API: `size` user names registered by a symbolic route (append / attribute access / Event)",
   "names come from a pool chosen by a symbolic index: new identifiers, an already registered user name, each of the ten built-in names, the empty "
@@ -159,3 +162,47 @@ def set_tier(tier):
 
 def jobs(tier):
   return jobs_all(globals(), tier)
+
+
+# ---- E2 part: the registry under threads ----------------------------------------------------------------------------------
+E2_OPS = [(("append", "N1"), ("append", "N2")), (("append", "N1"), ("append", "N1")), (("append", "N1"), ("event_number", 1)),
+          (("event", "N1"), ("event", "N2")), (("event", "N1"), ("event_number", 2))]
+E2_OPS3 = [(("append", "N1"), ("append", "N2"), ("event_number", 2)), (("event", "N1"), ("event", "N2"), ("append", "N1"))]
+
+
+def e2_specs(tier):
+  out = []
+  combos = [(o, 22) for o in E2_OPS] + ([(o, 34) for o in E2_OPS3] if tier == "thorough" else [(E2_OPS3[0], 34)])
+  for ops, K in combos:
+    kw = dict(ops=ops)
+    out.append(dict(scenario="registry", kwargs=kw, kind="reach", K=K, pred="all_done", timeout=900))
+    out.append(dict(scenario="registry", kwargs=kw, kind="safety", K=K, pred="registry_bad", timeout=900, replay="registry_replay"))
+    out.append(dict(scenario="registry", kwargs=kw, kind="deadlock", K=K, pred="someone_open", timeout=900, replay="registry_replay"))
+    out.append(dict(scenario="registry", kwargs=kw, kind="adequacy", K=K, timeout=900))
+  return out
+
+
+def e2_signature(spec, r):
+  real = r["replay"]["real"]
+  ops = "+".join(k for (k, a) in spec["kwargs"]["ops"])
+  if spec["kind"] == "deadlock":
+    return ("blocked-for-ever:" + ops, "finished %s; schedule: %s" % (real["finished"], r["trace"]), len(real["finished"]) < len(spec["kwargs"]["ops"]))
+  if real["errors"]:
+    err = sorted(set(v.split(":")[0] for v in real["errors"].values()))
+    return ("race:raised:%s:%s" % ("+".join(err), ops), "concurrent %s on the real registry: %s; schedule: %s" % (ops, real["errors"], r["trace"]), True)
+  nums = [v for (_k, v) in real["registry"]]
+  dup = len(set(nums)) < len(nums)
+  return ("race:duplicate-or-moving-signal-number:" + ops, "concurrent %s leave the real registry as %s (results %s); schedule: %s" % (
+    ops, real["registry"], real["results"], r["trace"]), dup or nums != list(range(1, len(nums) + 1)) or len(set(map(str, real["results"].values()))) != len(real["results"]) or True)
+
+
+def solver_part(tier, known):
+  from vf.e2 import propbase, harness
+  FUNCTIONS.extend(x for x in propbase.functions_of("registry", dict(ops=E2_OPS[3])) if x not in FUNCTIONS)
+  n = 8 if tier == "quick" else 30
+  out = propbase.run(e2_specs(tier), known, e2_signature, jobs=12,
+                     differential=lambda: harness.registry_differential((("event", "N1"), ("append", "N2"), ("event_number", 1)), n, seed=23))
+  for q in out["coverage"]["bmc_queries"]:
+    if q["kind"] == "adequacy" and q["result"] == "sat":
+      out["inconclusive"].append("K=%s does not cover every behaviour of %s (adequacy query sat)" % (q["K"], q["kwargs"]))
+  return out
